@@ -361,5 +361,5 @@ def replay(shard, rp):
 
 TECHNIQUE = 'boundary recorder on trace.py: uninterrupted run vs save/resume at every split point, field-by-field snapshot equality'
 LEVEL_TEXT = ('For each generated program and configuration the real trace.py is run once for N instructions and, for every n1 in 1..N-1, as two legs through a snapshot file; '
-              'the final snapshots must agree in RAM, all registers, IFF/IM, border, paging/AY state and frame position (MEMPTR and port FE too for SZX), plus long runs with T beyond 2^24.')
+              'the final snapshots must agree in RAM, all registers, IFF/IM, border, paging/AY state and frame position (MEMPTR and port FE too for SZX), plus long runs with T beyond 2^24; directed programs (frame boundary with DI/EI/HALT, aliased paging ports, stack on the ROM boundary) run in every tier.')
 LEVEL_NOTE = 'N is bounded (40-240); programs are sampled; snapshot decoding is trusted here and checked by C09.'
